@@ -19,7 +19,9 @@ WHICH = 1
 
 
 def cells(tier):
-    out = [{"name": "%s-%s" % (f, fam), "fn": f, "family": fam, "n": N[tier]}
+    # the box functions have the deepest case trees: three times the cases
+    deep = ("line_to_box", "line_segment_to_box", "rectangle_to_box")
+    out = [{"name": "%s-%s" % (f, fam), "fn": f, "family": fam, "n": (3 if f in deep else 1) * N[tier]}
            for f in prim.FUNCTIONS for fam in FAMILIES]
     if tier == "thorough":
         from ..common import fuzz_cells
